@@ -5,7 +5,7 @@ import z3
 
 from .. import common, meprogs, relmodel, templates
 from ..driver import HOLDS, INCONCLUSIVE, UNDECIDED, VIOLATION
-from ..prog import (Env, IllTyped, add_abstract_leaf, build, cols_of, fmt, from_jsonable, ops_of, pyeval, pytree, sem_seq, sem_tree,
+from ..prog import (Env, IllFormed, IllTyped, add_abstract_leaf, build, cols_of, fmt, from_jsonable, ops_of, pyeval, pytree, sem_seq, sem_tree,
                     to_jsonable)
 from ..symx import Skip, explore
 from . import c14
@@ -213,7 +213,10 @@ def run_shape(shape, tier):
                     pass
             info["moved"] = True
             ref = sem_seq(prog, env)
-            got = sem_tree(rel, env)
+            try:
+                got = sem_tree(rel, env)
+            except IllFormed as e:
+                return obs + [("returned tree is well-formed", False, {"why": str(e), "tree": str(rel)})]
             if ref.ordered and got.ordered and "S" not in repr(prog):
                 obs.append(("content (sequence)", relmodel.seq_eq(got, ref), {"tree": str(rel)}))
             else:
